@@ -713,8 +713,9 @@ func GetAPSource(val *fastjson.Value) Source {
 		return s
 	}
 
-	if contBytes := val.Get("source", "content").GetStringBytes(); len(contBytes) > 0 {
-		s.Content.UnmarshalJSON(contBytes)
+	if src := val.Get("source"); src != nil {
+		// the parser has already decoded the JSON strings: the text is taken as it is
+		s.Content = JSONGetNaturalLanguageField(src, "content")
 	}
 	if mimeBytes := val.Get("source", "mediaType").GetStringBytes(); len(mimeBytes) > 0 {
 		s.MediaType.UnmarshalJSON(mimeBytes)
